@@ -7,7 +7,9 @@ with path = list of key strings (forward order) and val = encoded value string.
 """
 from __future__ import annotations
 
+import contextlib
 import random
+import signal
 from pathlib import Path
 from typing import Any, Dict, List, Optional, Tuple
 
@@ -151,6 +153,23 @@ def dump_raw(filename) -> List[Any]:
     return out
 
 
+@contextlib.contextmanager
+def hard_time_limit(seconds: float):
+    """Like vlib.time_limit, but the alarm keeps firing every second after the deadline until
+    the block is left: a CaseTimeout raised inside a weakref callback or __del__ is swallowed
+    by the interpreter ("Exception ignored in ..."), which a one-shot alarm does not survive
+    (observed with the non-terminating copy of the pinned tree)."""
+    def handler(signum, frame):
+        raise vlib.CaseTimeout(f"timed out after {seconds}s")
+    old = signal.signal(signal.SIGALRM, handler)
+    signal.setitimer(signal.ITIMER_REAL, seconds, 1.0)
+    try:
+        yield
+    finally:
+        signal.setitimer(signal.ITIMER_REAL, 0)
+        signal.signal(signal.SIGALRM, old)
+
+
 def exec_ih5(ops, cls_name="IH5Record", op_timeout=15) -> Dict[str, Any]:
     """Run a history on a fresh IH5 record; per step result + view; raw containers at the end."""
     from metador_core.ih5.container import IH5Record, IH5MFRecord
@@ -165,7 +184,7 @@ def exec_ih5(ops, cls_name="IH5Record", op_timeout=15) -> Dict[str, Any]:
                     steps.append(["X", dead])
                     continue
                 try:
-                    with vlib.time_limit(op_timeout):
+                    with hard_time_limit(op_timeout):
                         if op[0] == "bnd":
                             rec.commit_patch()
                             rec.create_patch()
@@ -180,7 +199,7 @@ def exec_ih5(ops, cls_name="IH5Record", op_timeout=15) -> Dict[str, Any]:
                     res = "F"
                     err = f"{type(e).__name__}: {e}"[:200]
                 try:
-                    with vlib.time_limit(op_timeout):
+                    with hard_time_limit(op_timeout):
                         view = dump_view(rec)
                 except vlib.CaseTimeout:
                     dead = "timeout-in-read"
